@@ -53,6 +53,28 @@ def shorthand_program(r):
     return lines(L), bind_line, call_line
 
 
+def wildself_program(r, ret=False):
+    """the binding made by a wildcard: a pipeline input x of type s handed on by `* = self` to a
+    callee parameter x of type t (ret: to the pipeline's own output x by `return (* = self)`)"""
+    s, t = r["s"], r["t"]
+    L = DECLS.rstrip("\n").split("\n") + [""]
+    if ret:
+        L += ["stage K(", "    in  %s x," % ts(s), "    out int w,", "    src comp \"k\",", ")", ""]
+        L += ["pipeline INNER(", "    in  %s x," % ts(s), "    out %s x," % ts(t), ")", "{", "    call K(", "        x = self.x,", "    )", ""]
+        a = len(L) + 1
+        L += ["    return (", "        * = self,", "    )"]
+        b = len(L)
+        L += ["}"]
+        return lines(L), list(range(a - 12, b + 1))
+    L += ["stage C(", "    in  %s x," % ts(t), "    out int y,", "    src comp \"c\",", ")", ""]
+    L += ["pipeline INNER(", "    in  %s x," % ts(s), "    out int y,", ")", "{"]
+    a = len(L) + 1
+    L += ["    call C(", "        * = self,", "    )"]
+    b = len(L)
+    L += ["", "    return (", "        y = C.y,", "    )", "}"]
+    return lines(L), list(range(a, b + 1))
+
+
 def ref_program(r):
     """returns (source, line of the offending binding, line of its call)"""
     s, t, kind = r["s"], r["t"], r["kind"].replace("proj", "")
